@@ -39,7 +39,7 @@ VARIABLES open,    \* per master: <<tgt, we>> of the request it holds (cyc & stb
 
 cvars == <<open, incyc, served, waitc, owner, age, ageu, tofired, seen, obs>>
 
-MAXN == 3
+MAXN == 4
 Masters(c) == 1..c.n
 Slaves(c)  == 1..c.m
 Req(iv, i) == iv[3 * (i - 1) + 1]
